@@ -75,7 +75,8 @@ def to_program(G, namespaces=False):
     pres = set()
     for f in range(1, len(G["inc"]) + 1):
         fl = {"path": fname(f), "includes": [fname(g) for g in G["inc"][f - 1]], "defs": []}
-        if namespaces:
+        if namespaces or not any(d["k"] != "dead" and d["f"] == f for d in G["defs"]):
+            # a file without any definition needs something to be a document at all
             fl["namespaces"] = [{"lang": "go", "name": "pkg" + fprefix(f)}]
         files.append(fl)
     for i, d in enumerate(G["defs"]):
